@@ -329,8 +329,10 @@ impl Sched {
         self.cv.notify_all();
         break;
       }
+      // (no progress is credited: a stalled thread becomes eligible again only when somebody really
+      // passes a schedule point or finishes - otherwise two threads blocked on each other would hand the
+      // turn back and forth for ever instead of being recognised as deadlocked)
       g.current = others[0];
-      g.progress += 1;
       quiet_polls = 0;
       self.cv.notify_all();
     }
